@@ -297,6 +297,35 @@ def check_ioerr(crate, rep, cfg):
                 "return, whatever its kind (an I/O failure inside an include / component / block is not swallowed)" + ("" if ok else " — VIOLATED: " + why))
         k += 1
     rep.floor("C18.IOERR", "nested renders whose Err edge is checked [%s]" % cfg, k, 6)
+    # ... and the entry point hands it on: in VirtualMachine::render_to no Ok is built on a path that has seen an Err of interpret / write_all
+    # (an error of a particular kind "forgiven" there makes a truncated render look successful)
+    rt = crate.one("vm::interpreter::VirtualMachine::<'tera>::render_to")
+    efr = EdgeFacts(rt, crate)
+    trr = Tracer(rt)
+    oks = {bb for bb, idx, st in find_aggs(rt, "std::result::Result", "Ok")}
+    err_t = []
+    srcs = {bb for bb, t in rt.calls() if callee_def(t).endswith("VirtualMachine::<'tera>::interpret") or callee_def(t).endswith("Write::write_all")}
+    for sb in sorted(rt.reachable):
+        st = rt.term(sb)
+        if st["k"] != "switch" or st["op"]["k"] == "const" or st["op"]["pl"]["p"]:
+            continue
+        d = efr.single_def(st["op"]["pl"]["l"])
+        if not (d and d[3]["k"] == "discr"):
+            continue
+        src = [l for l in trr.place(d[3]["pl"]) if l.kind != "cycle"]
+        if not (src and any(l.kind == "call" and l.detail[2] in srcs for l in src)):
+            continue
+        for tgt, fl in efr.facts_for_switch(sb).items():
+            for f in fl:
+                if f[0] == "variant" and f[4] and f[3] and set(f[3]) <= {"Err", "Break"} and tgt != sb:
+                    err_t.append(tgt)
+    ok = bool(err_t) and bool(srcs)
+    why = "no test of interpret's result found"
+    for tgt in err_t:
+        if rt.reach_from(tgt) & oks:
+            ok, why = False, "an Ok is built after an Err was seen (%s)" % rt.where(tgt)
+    rep.add("C18.IOERR", "C18.IOERR:render_to:an-error-stays-an-error", ok, rt.where(0), "VirtualMachine::render_to returns every Err of interpret / write_all as an Err (no Ok "
+            "reachable from an Err edge)" + ("" if ok else " — VIOLATED: " + why))
     # From<io::Error> for Error builds ErrorKind::Io
     f = [b for p, b in crate.bodies.items() if "From<std::io::Error>" in p and "errors" in p]
     ok = False
